@@ -257,6 +257,7 @@ package cipher
 //@   loop 1 invariant sameobj(src, S0) && offof(src) + len(src) == offof(S0) + len(S0) && offof(S0) <= offof(src) && len(src) % 16 == 0
 //@   loop 1 invariant sameobj(dst, D0) && offof(dst) - offof(D0) == offof(src) - offof(S0) && len(dst) == len(D0) - (offof(dst) - offof(D0)) && len(D0) >= len(S0)
 //@   loop 1 invariant sameslice(iv, x.iv) && len(iv) == 16 && x.blockSize == 16 && x.b != nil && id(x.b) == K && len(k) == 16 && objof(k) < 0 && x.cipherFunc != nil
+//@   loop 1 invariant offof(src) > offof(S0) ==> forall i :: 0 <= i && i < 16 ==> iv[i] == k[i]
 //@   loop 1 invariant onlychanged(D0[:len(S0)]) && onlychanged(old(x.iv))
 //@   loop 1 decreases len(src)
 //@   modifies dst[0..len(src)], x.iv[0..len(x.iv)]
@@ -281,6 +282,7 @@ package cipher
 //@   loop 1 invariant sameobj(src, S0) && offof(src) + len(src) == offof(S0) + len(S0) && offof(S0) <= offof(src) && len(src) % 16 == 0
 //@   loop 1 invariant sameobj(dst, D0) && offof(dst) - offof(D0) == offof(src) - offof(S0) && len(dst) == len(D0) - (offof(dst) - offof(D0)) && len(D0) >= len(S0)
 //@   loop 1 invariant sameslice(iv, x.iv) && len(iv) == 16 && x.blockSize == 16 && x.b != nil && id(x.b) == K && len(k) == 16 && objof(k) < 0 && x.cipherFunc != nil
+//@   loop 1 invariant offof(src) > offof(S0) ==> forall i :: 0 <= i && i < 16 ==> iv[i] == k[i]
 //@   loop 1 invariant onlychanged(D0[:len(S0)]) && onlychanged(old(x.iv))
 //@   loop 1 decreases len(src)
 //@   modifies dst[0..len(src)], x.iv[0..len(x.iv)]
